@@ -202,6 +202,24 @@ pub fn run(ctx: &Ctx) -> Report {
     }
   }
   report.model_requests = model.requests;
+  // ---- printed onto a real terminal the script is the same text (the terminal turns line feeds into CR LF; nothing else)
+  if ctx.replay.is_none() {
+    for (sh, _) in SHELLS {
+      let sb = Sandbox::new(&ctx.work, "c19t");
+      let Some(o) = crate::run::pty_run_fds(100, &sb.root, &ctx.imdl, &["completions", "--shell", sh], "1", &sb.path("stderr.txt")) else {
+        report.hit("skipped:no-pty-helper");
+        break;
+      };
+      let case = json!({"stdout_is_a_terminal": true, "shell": sh});
+      report.case(Some(fnv_str(&case.to_string())));
+      report.hit("print:onto-a-terminal");
+      let text: Vec<u8> = o.stdout.iter().copied().filter(|b| *b != b'\r').collect();
+      let want: Vec<u8> = printed[sh].iter().copied().filter(|b| *b != b'\r').collect();
+      if o.code != Some(0) || text != want {
+        report.fail("property", "completions-dispatch", case, format!("on a terminal `--shell {sh}` prints {} bytes (exit {:?}); into a pipe it prints {} bytes: not the same script", text.len(), o.code, want.len()));
+      }
+    }
+  }
   // ---- the same dispatch under other spellings of the directory and other states of the world
   let only: Option<Vec<String>> = super::replay_cases(ctx).map(|rc| rc.iter().filter_map(|v| v.get("scenario").and_then(|s| s.as_str()).map(|s| s.to_string())).collect());
   for (label, dir_arg, lands_in) in [
